@@ -21,6 +21,7 @@ import Driver.Emitter
 import Driver.GenStatus
 import Driver.Lifecycle
 import Driver.Collection
+import Driver.GoHeap
 import Driver.Roots
 import Driver.BLSAgg
 import Driver.Text
@@ -58,6 +59,7 @@ def main (args : List String) : IO UInt32 := do
   | ["C15STATUS"] => Driver.GenStatus.main; return 0
   | ["C18LIFE"] => Driver.Lifecycle.main; return 0
   | ["LIBCOLL"] => Driver.Collection.main; return 0
+  | ["LIBHEAP"] => Driver.GoHeap.main; return 0
   | ["ROOTS"] => Driver.Roots.main; return 0
   | ["C06BLS"] => Driver.BLSAgg.main; return 0
   | ["C09TEXT"] => Driver.Text.main; return 0
